@@ -629,6 +629,19 @@ def main(argv):
                 else:
                     log("note: witness harness %s for known finding %s inconclusive: %s" % (h["id"], kf["id"], r["reason"]))
                 continue
+            if r["status"] == "FAIL" and any(".assigns." in c["name"] or "is assignable" in c["desc"] for c in r["failed"]):
+                # frame-condition failure (C14): CBMC's assigns-clause instrumentation found a write outside
+                # {rng, locals} in the call tree of sample().  There is nothing to replay natively (a hidden write
+                # need not change any single output); the instrumentation is a sound over-approximation of "sample()
+                # writes state other than the RNG", which is the violation itself.
+                rdir_out = os.path.join(os.environ.get("VERIF_OUT", os.path.join(VERIF, "out")), "replay", prop)
+                os.makedirs(rdir_out, exist_ok=True)
+                cp = os.path.join(rdir_out, h["id"] + ".json")
+                json.dump({"property": prop, "aux": h["id"], "detail": {"kind": "frame condition violated", "writes_outside_frame": r["failed"]}},
+                          open(cp, "w"), indent=1)
+                r["replay_detail"] = ["write outside the frame: %s at %s" % (c["desc"], c["loc"]) for c in r["failed"][:5]]
+                violations.append((r, cp))
+                continue
             if r["status"] == "FAIL":
                 tests = r.get("playback") or []
                 if violations and not os.environ.get("VERIF_REPLAY_ALL"):
